@@ -136,8 +136,7 @@ def gen_case(rng, dtypes):
     case = common.gen_opcase(rng, OPS, dtypes, mask_kinds=["none", "none", "bool", "bool_series"], index_p=0.4)
     if case["op"] != "cumsum":
         case["params"] = {"skip_na": True} if case["op"] != "cumcount" else {}
-    if case["op"] == "cumsum" and np.dtype(case["val"]["dtype"]).kind in "iu":
-        pass
+    common.add_route(rng, case, 0.2)
     return case
 
 
